@@ -153,8 +153,9 @@ def plan(tier):
         spec = [
             (1, full, 1, ('fwd',), (0.0, 0.5), ('class', 'func')),
             (2, full, 2, ('fwd', 'rev'), (0.0, 0.5), ('class', 'func')),
-            (3, full, 2, ('fwd', 'rev', 'rot1'), (0.0, 0.5), ('class', 'func')),
-            (4, small, 2, ('fwd', 'rev', 'rot1'), (0.0, 0.5), ('class',)),
+            (3, small, 2, ('fwd', 'rev', 'rot1'), (0.0, 0.5), ('class', 'func')),
+            (3, full, 1, ('fwd', 'rev'), (0.0,), ('class',)),
+            (4, small, 1, ('fwd', 'rev', 'rot1'), (0.0, 0.5), ('class',)),
             (5, small, 1, ('fwd',), (0.0,), ('class',)),
         ]
         mbs, mcb, Rs = (1, 2, 3, 5), (1, 2, 3), (0.0, 2.0)
